@@ -15,6 +15,7 @@
  *   HOOKS                   print and clear the update-hook log
  *   LOGREG <facility>       log_type_register()
  *   EMIT <round> <fac>,...  one message per (facility, severity); fatal ones in a grandchild
+ *   EMITLONG <round> <fac>,... <len>   padded messages at info and error
  *   REOPEN                  log_reopen()
  */
 #include "src/common.h"
@@ -299,6 +300,24 @@ static void do_emit(const char *round, char *facs)
     }
 }
 
+/* EMITLONG <round> <fac>,... <len>: one message with <len> bytes of padding per facility at info and error */
+static void do_emit_long(const char *round, char *facs, unsigned int len)
+{
+    char *fac, *save = NULL, *pad = malloc(len + 1);
+    unsigned int ii;
+    for (ii = 0; ii < len; ++ii)
+        pad[ii] = (char)('0' + ii % 10);
+    pad[len] = '\0';
+    for (fac = strtok_r(facs, ",", &save); fac; fac = strtok_r(NULL, ",", &save)) {
+        char *name = pct_decode(fac, NULL);
+        struct log_type *lt = log_type_register(name, NULL);
+        log_message(lt, LOG_INFO, "MSG r=%s f=%s s=%s p=%s", round, fac, sevnames[LOG_INFO], pad);
+        log_message(lt, LOG_ERROR, "MSG r=%s f=%s s=%s p=%s", round, fac, sevnames[LOG_ERROR], pad);
+        free(name);
+    }
+    free(pad);
+}
+
 /* ---- command interpreter ---------------------------------------------------------------- */
 
 static char *snapshot;
@@ -344,6 +363,8 @@ static int run_command(char *line)
         free(n);
     } else if (!strcmp(argv[0], "EMIT") && argc >= 3) {
         do_emit(argv[1], argv[2]);
+    } else if (!strcmp(argv[0], "EMITLONG") && argc >= 4) {
+        do_emit_long(argv[1], argv[2], (unsigned int)strtoul(argv[3], NULL, 10));
     } else if (!strcmp(argv[0], "REOPEN")) {
         log_reopen();
     } else if (!strcmp(argv[0], "PARSE") && argc >= 3) {
